@@ -4,8 +4,9 @@ import json, os, shutil, subprocess, sys
 ROOT = os.path.dirname(os.path.dirname(os.path.abspath(__file__)))
 prop, i, needs = sys.argv[1], sys.argv[2], sys.argv[3]
 checks = sys.argv[4] if len(sys.argv) > 4 else prop
-src = f"/tmp/sb/{prop}"
-dst = os.path.join(ROOT, "seeded", f"{prop}-{i}")
+src = os.path.join(os.environ.get("SB_DIR", "/tmp/sb"), prop)
+suffix = os.environ.get("SB_SUFFIX", "")
+dst = os.path.join(ROOT, "seeded", f"{prop}-{suffix}{i}")
 os.makedirs(dst, exist_ok=True)
 shutil.copy(f"{src}/patch{i}.diff", f"{dst}/patch.diff")
 shutil.copy(f"{src}/demo{i}.py", f"{dst}/demo.py")
@@ -16,7 +17,7 @@ meta = {
     "property": prop,
     "breaks": prop,
     "needs_to_manifest": needs,
-    "origin": "independent sub-agent given only the property text and a scratch worktree",
+    "origin": os.environ.get("SB_ORIGIN", "independent sub-agent given only the property text and a scratch worktree"),
     "confirmed": {
         "repo_tests_with_patch": ev.get("tests"),
         "demo_rc_unpatched": ev.get("demo_unpatched_rc"),
